@@ -24,4 +24,8 @@ var (
 	ErrListenerClosed     = errors.New("group listener closed")
 	ErrGroupDifferentPort = errors.New("group should have same remote port")
 	ErrProxyRepeated      = errors.New("group proxy repeated")
+
+	// errGroupClosed is returned by a group whose last member has left; the
+	// controller then retries with a fresh group.
+	errGroupClosed = errors.New("group closed")
 )
